@@ -187,6 +187,32 @@ Lemma axor1_sound c p q bp bq b :
   sem c (axor1 p q) = Some b -> xorb bp bq = b.
 Proof. intros Hp Hq H. bycases p q H axor1; fin Hp Hq. Qed.
 
+Lemma aandnot1_sound c p q bp bq b :
+  (forall v, sem c p = Some v -> bp = v) -> (forall v, sem c q = Some v -> bq = v) ->
+  sem c (aandnot1 p q) = Some b -> bp && negb bq = b.
+Proof.
+  intros Hp Hq H.
+  assert (Hx : forall q', (match p with A0 => A0 | _ => ATop end) = q' -> sem c q' = Some b -> bp && negb bq = b).
+  { intros q' E Hs. subst q'. destruct p; cbn in Hs; try discriminate. inversion Hs; subst.
+    specialize (Hp false eq_refl). subst bp. reflexivity. }
+  destruct q; cbn [aandnot1] in H.
+  - specialize (Hq false eq_refl). subst bq. cbn. rewrite andb_true_r. apply Hp. exact H.
+  - specialize (Hq true eq_refl). subst bq. cbn in *. inversion H. apply andb_false_r.
+  - eapply Hx; [reflexivity|exact H].
+  - eapply Hx; [reflexivity|exact H].
+  - eapply Hx; [reflexivity|exact H].
+  - eapply Hx; [reflexivity|exact H].
+Qed.
+
+Lemma Rb_andnot c a1 a2 x y w : Rb c a1 x -> Rb c a2 y ->
+  Rb c (fun i => if i <? w then aandnot1 (a1 i) (a2 i) else A0) (N.land x ((N.lnot y w) mod 2 ^ w)).
+Proof.
+  intros H1 H2 i b H. rewrite N.land_spec. destruct (N.ltb_spec i w) as [Hi|Hi].
+  - rewrite N.mod_pow2_bits_low, N.lnot_spec_low by assumption.
+    eapply aandnot1_sound; [apply H1|apply H2|exact H].
+  - cbn in H. inversion H; subst. rewrite N.mod_pow2_bits_high by assumption. apply andb_false_r.
+Qed.
+
 Lemma Rb_and c a1 a2 x y : Rb c a1 x -> Rb c a2 y ->
   Rb c (fun i => aand1 (a1 i) (a2 i)) (N.land x y).
 Proof.
@@ -236,6 +262,8 @@ Proof.
       rewrite (H2 i false) by (rewrite E2; reflexivity). apply andb_false_r.
     + destruct (a2 i) eqn:E2; try discriminate.
       rewrite (H2 i false) by (rewrite E2; reflexivity). apply andb_false_r.
+    + destruct (a2 i) eqn:E2; try discriminate.
+      rewrite (H2 i false) by (rewrite E2; reflexivity). apply andb_false_r.
   - rewrite Hx by assumption. reflexivity.
 Qed.
 
@@ -258,12 +286,15 @@ Proof.
       rewrite (H2 i false) by (rewrite E2; reflexivity). rewrite orb_false_r. apply H1. rewrite E1. assumption.
     + destruct (a2 i) eqn:E2; try discriminate.
       rewrite (H2 i false) by (rewrite E2; reflexivity). rewrite orb_false_r. apply H1. rewrite E1. assumption.
+    + destruct (a2 i) eqn:E2; try discriminate.
+      rewrite (H2 i false) by (rewrite E2; reflexivity). rewrite orb_false_r. apply H1. rewrite E1. assumption.
     + discriminate.
   - rewrite Hx, Hy by assumption. cbn.
     (* beyond bit 63 nothing is claimed unless the abstract bit is known *)
     unfold pick1 in H.
     destruct (a1 i) eqn:E1.
     + symmetry. rewrite <- (Hy i Hi). symmetry. apply H2. assumption.
+    + rewrite <- (Hx i Hi). apply H1. rewrite E1. assumption.
     + rewrite <- (Hx i Hi). apply H1. rewrite E1. assumption.
     + rewrite <- (Hx i Hi). apply H1. rewrite E1. assumption.
     + rewrite <- (Hx i Hi). apply H1. rewrite E1. assumption.
@@ -290,7 +321,7 @@ Proof.
   - rewrite (IHa H call call' s s' ps). reflexivity.
 Qed.
 
-Definition env_of (s : st) (v : N) : cenv := mkenv (fun o => nth o (s_oct s) 0) v.
+Definition env_of (s : st) (v : N) : cenv := mkenv (fun o => nth o (s_oct s) 0) v (getf s).
 
 Lemma eval_bin mb s ps op t a b :
   eval mb s ps (EBin op t a b) =
@@ -308,14 +339,16 @@ Proof. reflexivity. Qed.
 Lemma Rb_const_eq c n m : n = m -> Rb c (aconst m) n.
 Proof. intros ->. apply Rb_aconst. Qed.
 
-Theorem aeval_sound mb s v e : mask_closed mb = true -> st_ok s -> v < 2 ^ 64 ->
-  forall r, eval mb s [v] e = Ok r -> Rb (env_of s v) (aeval mb e) r.
+(* general form: any parameter list; the tracked parameter is the first one *)
+Theorem aeval_sound_ps mb s ps e : mask_closed mb = true -> st_ok s ->
+  forall r, eval mb s ps e = Ok r -> Rb (env_of s (nth 0 ps 0)) (aeval mb e) r.
 Proof.
-  intros Hmb Hs Hv.
+  intros Hmb Hs.
   induction e as [t n|k t|o|f|op t a IHa b IHb|t a IHa|a IHa b IHb|]; intros r H.
   - cbn in H. inversion H; subst. cbn [aeval]. apply Rb_aconst.
   - destruct k as [|k].
-    + cbn in H. inversion H; subst. cbn [aeval]. unfold wrap. apply Rb_atrunc.
+    + unfold eval in H. cbn [eval_gen] in H. destruct ps as [|v ps']; cbn [nth_error] in H; [discriminate|].
+      inversion H; subst. cbn [aeval nth]. unfold wrap. apply Rb_atrunc.
       intros i b Hb. cbn in Hb. inversion Hb; subst. reflexivity.
     + cbn [aeval]. apply Rb_atop.
   - cbn [aeval].
@@ -327,13 +360,14 @@ Proof.
     unfold eval in H. cbn [eval_gen] in H. unfold idx in H.
     destruct (nth_error (s_oct s) o) eqn:E; inversion H; subst.
     erewrite nth_error_nth by eassumption. reflexivity.
-  - cbn [aeval]. apply Rb_atop.
+  - cbn [aeval]. unfold eval in H. cbn [eval_gen] in H. inversion H; subst.
+    intros i b Hb. cbn in Hb. inversion Hb; subst. reflexivity.
   - rewrite eval_bin in H.
-    destruct (eval mb s [v] a) as [x| | |] eqn:Ea; cbn [obind] in H; try discriminate.
-    destruct (eval mb s [v] b) as [y| | |] eqn:Eb; cbn [obind] in H; try discriminate.
+    destruct (eval mb s ps a) as [x| | |] eqn:Ea; cbn [obind] in H; try discriminate.
+    destruct (eval mb s ps b) as [y| | |] eqn:Eb; cbn [obind] in H; try discriminate.
     inversion H; subst; clear H.
-    pose proof (eval_hi mb s [v] a x Hs Ea) as Hhx.
-    pose proof (eval_hi mb s [v] b y Hs Eb) as Hhy.
+    pose proof (eval_hi mb s ps a x Hs Ea) as Hhx.
+    pose proof (eval_hi mb s ps b y Hs Eb) as Hhy.
     specialize (IHa x eq_refl). specialize (IHb y eq_refl).
     destruct op; cbn [aeval binop_sem].
     + apply Rb_and; assumption.
@@ -356,18 +390,19 @@ Proof.
     + destruct (is_const (aeval mb b)) as [q|] eqn:Cb; [|apply Rb_atop].
       rewrite (is_const_sound _ _ _ _ Hhy IHb Cb).
       apply Rb_shr. assumption.
-    + destruct (is_const (aeval mb a)) as [p|] eqn:Ca; [destruct (is_const (aeval mb b)) as [q|] eqn:Cb|];
-        try apply Rb_atop.
-      apply Rb_const_eq. cbn [binop_sem].
-      rewrite (is_const_sound _ _ _ _ Hhx IHa Ca), (is_const_sound _ _ _ _ Hhy IHb Cb). reflexivity.
+    + destruct (is_const (aeval mb a)) as [p|] eqn:Ca; [destruct (is_const (aeval mb b)) as [q|] eqn:Cb|].
+      * apply Rb_const_eq. cbn [binop_sem].
+        rewrite (is_const_sound _ _ _ _ Hhx IHa Ca), (is_const_sound _ _ _ _ Hhy IHb Cb). reflexivity.
+      * unfold wrap. apply Rb_andnot; assumption.
+      * unfold wrap. apply Rb_andnot; assumption.
   - rewrite eval_cast in H.
-    destruct (eval mb s [v] a) as [x| | |] eqn:Ea; cbn [obind] in H; try discriminate.
+    destruct (eval mb s ps a) as [x| | |] eqn:Ea; cbn [obind] in H; try discriminate.
     inversion H; subst. cbn [aeval]. unfold wrap. apply Rb_atrunc. apply IHa. reflexivity.
   - rewrite eval_mask in H.
-    destruct (eval mb s [v] a) as [x| | |] eqn:Ea; cbn [obind] in H; try discriminate.
-    destruct (eval mb s [v] b) as [y| | |] eqn:Eb; cbn [obind] in H; try discriminate.
-    pose proof (eval_hi mb s [v] a x Hs Ea) as Hhx.
-    pose proof (eval_hi mb s [v] b y Hs Eb) as Hhy.
+    destruct (eval mb s ps a) as [x| | |] eqn:Ea; cbn [obind] in H; try discriminate.
+    destruct (eval mb s ps b) as [y| | |] eqn:Eb; cbn [obind] in H; try discriminate.
+    pose proof (eval_hi mb s ps a x Hs Ea) as Hhx.
+    pose proof (eval_hi mb s ps b y Hs Eb) as Hhy.
     specialize (IHa x eq_refl). specialize (IHb y eq_refl).
     cbn [aeval].
     destruct (is_const (aeval mb a)) as [p|] eqn:Ca; [destruct (is_const (aeval mb b)) as [q|] eqn:Cb|];
@@ -378,3 +413,7 @@ Proof.
     rewrite H. apply Rb_aconst.
   - cbn in H. discriminate.
 Qed.
+
+Theorem aeval_sound mb s v e : mask_closed mb = true -> st_ok s -> v < 2 ^ 64 ->
+  forall r, eval mb s [v] e = Ok r -> Rb (env_of s v) (aeval mb e) r.
+Proof. intros Hmb Hs _ r H. exact (aeval_sound_ps mb s [v] e Hmb Hs r H). Qed.
